@@ -224,10 +224,7 @@ def single_suite(ctx, oracles, gen_kwargs_list, count, items=None):
         if failed:
             continue
         if m['tie']:
-            stats['ties'] += 1
-            if p.head_uniform and [s for s, _ in mres] != [s for s, _ in got]:
-                ctx.disagree('run', desc, str([s for s, _ in mres]), str([s for s, _ in got]), note='scores (ties present)')
-            continue
+            stats['ties'] += 1        # compared exactly all the same: the model's agenda is the real heap
         want = [(s, G.expected_tree(p, cats, gram, words, d)) for s, d in mres]
         if want != got:
             ctx.disagree('run', desc, json.dumps(want)[:700], json.dumps(got)[:700], note='trees/labels/heads/scores differ')
